@@ -21,7 +21,8 @@ ASSUMPTIONS = ["edges are increasing and equally spaced to within float rounding
                "'relative distance of order 1e-12, growing linearly with the bin index')",
                "closed mode: the last bin ends at edges[-1]+step; within 2*slack of that end both 'last bin' and 'out of range' are accepted",
                "single-edge grids are open-ended (pinned by tests/test_calc.py::test_bin1d_single_bin1)",
-               "cleaner_range start values have a repr without exponent (it parses str(float(start)))"]
+               "cleaner_range start values have a repr without exponent (it parses str(float(start)))",
+               "values are finite doubles up to +-1.797e308; +-inf and NaN are not coordinates or magnitudes (the library's tolerance arithmetic gives inf-inf for -inf)"]
 SHARDS = {"quick": 8, "thorough": 16}
 
 STEPS = ["0.1", "0.05", "0.025", "0.2", "0.25", "0.5", "1", "2", "0.125", "0.15", "0.3", "0.01", "0.03", "0.06", "0.7", "0.4", "0.02"]
@@ -73,6 +74,8 @@ def probes(edges, sel, extra, step, eps):
     up = exact.fl(Fraction(el) + step)
     sl = exact.slack(up, n, edges, eps)
     vals += [el + hf / 2, up, exact.ulp_step(up, 1), exact.ulp_step(up, -1), up - 3 * sl, up + 3 * sl, el + 10 * hf, el + 1e6]
+    # far tails of the float64 range ("all float64 values"): the open top bin has no upper end
+    vals += [1e15, 1e18, 1e19, 1e20, 1e300, 1.7976931348623157e308, -1e18, -1e300, -1.7976931348623157e308]
     vals += extra
     return vals
 
